@@ -271,6 +271,14 @@ def specs(tier: str) -> list[Spec]:
              max_dev=(4 if tier == "quick" else None)),
         Spec("timeout_vs_cleanup_writer", {"cause": "timeout", "writers": True}, lambda: wf_stop_cleanup_writer("timeout"),
              wf_kw={"timeout": 10.0}, pair_time=True, max_dev=(4 if tier == "quick" else None)),
+        # ... and the (decorating) adapter's own close() fails during the teardown
+        Spec("stop_vs_cleanup_writer/close_raises", {"cause": "stop_race", "adapter_close_raises": True}, wf_stop_cleanup_writer, pair=True),
+        Spec("fail_vs_cleanup_writer/close_raises", {"cause": "raise_no_retry", "writers": True, "adapter_close_raises": True},
+             lambda: wf_stop_cleanup_writer("fail"), pair=True),
+        Spec("cancel_vs_cleanup_writer/close_raises", {"cause": "cancel", "writers": True, "adapter_close_raises": True},
+             lambda: wf_stop_cleanup_writer("cancel"), scripts=cancel_script, max_dev=(3 if tier == "quick" else None)),
+        Spec("timeout_vs_cleanup_writer/close_raises", {"cause": "timeout", "writers": True, "adapter_close_raises": True},
+             lambda: wf_stop_cleanup_writer("timeout"), wf_kw={"timeout": 10.0}, pair_time=True, max_dev=(3 if tier == "quick" else None)),
         Spec("raise_no_retry", {"cause": "raise_no_retry"}, lambda: wf_raise(None)),
         Spec("raise_no_retry_other_worker", {"cause": "raise_no_retry"}, lambda: wf_raise(None, True)),
         Spec("raise_retry_exhausted", {"cause": "raise_retry_exhausted"}, lambda: wf_raise(pol3())),
